@@ -4,11 +4,13 @@ from __future__ import annotations
 import asyncio
 import concurrent.futures
 import itertools
+import os
 import random
 import threading
 import time
 
 from vlib import gates, schedfuzz, watch
+from vlib.targets import Boom
 
 PROPERTY = 'C08'
 LEVEL = 'exploration'
@@ -16,7 +18,7 @@ RULE = ('configurations = operator {fifo_stream(capacity), parmap thread/process
         'size 1-8 x speed profile {slow consumer, slow workers, slow source, all fast, bursty} x length {50..2000, unbounded count() '
         'closed after k}; the invariant pulled-received <= bound and running <= concurrency is evaluated under one lock at every pull / '
         'call-entry event, in the thread causing it; non-trivial = the run reached gap >= bound-1 (extreme state approached); '
-        'distinct = distinct (operator, size, profile, length, seed); async-stream twins (AsyncStream.parmap thread/async-func, AsyncStream.buffer); a long-stall profile (consumer silent for 2.25 s, 1.12 s, 0.13 s)')
+        'distinct = distinct (operator, size, profile, length, seed); async-stream twins (AsyncStream.parmap thread/async-func, AsyncStream.buffer); a long-stall profile (consumer silent for 2.25 s, 1.12 s, 0.13 s); the same operator object iterated again right after an iteration left early (close / GC / worker failure) with calls in flight')
 ASSUMPTIONS = ['"handed to the consumer" is counted by the consuming thread right after the generator yields, before it asks for the next element',
                'for process executors the number of running calls is computed from (start, end) CLOCK_MONOTONIC intervals reported by the children']
 CASE_TIMEOUT = 120
@@ -69,7 +71,160 @@ def gen_cases(tier, seed):
         prof = 'slow-worker' if i % 6 < 3 else rng.choice(['slow-consumer', 'fast', 'slow-worker'])
         cases.append({'op': 'parmap-process', 'size': [1, 2, 3][i % 3], 'profile': prof,
                       'length': rng.choice([30, 80]), 'unbounded': False, 'fuzz': False, 'seed': rng.randrange(1 << 30)})
+    # the same operator object iterated again right after an iteration that was left early (closed / failed) with calls in flight:
+    # the bound holds across the two iterations, not only inside each
+    i = 0
+    for op in ('parmap-thread', 'aparmap-thread', 'parmap-process'):
+        for how in ('close', 'worker-raises', 'gc'):
+            for size in ((2,) if tier == 'quick' else (1, 2, 4)):
+                for rep in range(1 if tier == 'quick' else 3):
+                    cases.append({'op': op, 'scenario': 'reiterate', 'how': how, 'size': size, 'seed': rng.randrange(1 << 30), 'fuzz': False})
     return cases
+
+
+def proc_logged(x):
+    """x = (i, sleep, fail, log path): enter/leave events go to an O_APPEND log with the system-wide monotonic clock."""
+    i, dur, fail, path = x
+    fd = os.open(path, os.O_WRONLY | os.O_APPEND | os.O_CREAT)
+    try:
+        os.write(fd, f'E {i} {time.monotonic()!r}\n'.encode())
+        try:
+            time.sleep(dur)
+            if fail:
+                raise Boom(i)
+            return i
+        finally:
+            os.write(fd, f'L {i} {time.monotonic()!r}\n'.encode())
+    finally:
+        os.close(fd)
+
+
+def _reiterate(case):
+    import gc
+    import tempfile
+
+    import mpservice.streamer._streamer as S
+    import mpservice.streamer._streamer_async as SA
+
+    op, size, how = case['op'], case['size'], case['how']
+    n = 4 * size + 6
+    slow = 0.25
+    led = gates.Ledger(running_bound=size)
+    viol = []
+    state = {'iter': 0}
+    tmp = tempfile.mkdtemp(prefix='vf-c08-')
+    path = os.path.join(tmp, 'calls.log')
+
+    def work(x):
+        led.enter(x)
+        try:
+            time.sleep(0.001 if x == 0 else slow)
+            if how == 'worker-raises' and x == 1 and state['iter'] == 1:
+                raise Boom(x)
+            return x
+        finally:
+            led.leave(x)
+
+    def first_items():
+        return [(i, 0.001 if i == 0 else slow, how == 'worker-raises' and i == 1, path) for i in range(n)]
+
+    def second_items():
+        return [(i, 0.05, False, path) for i in range(n)]
+
+    def body():
+        if op == 'parmap-thread':
+            st = S.Stream(list(range(n))).parmap(work, executor='thread', concurrency=size)
+        elif op == 'parmap-process':
+            src = {'items': first_items()}
+
+            class Src:
+                def __iter__(self):
+                    return iter(src['items'])
+
+            st = S.Stream(Src()).parmap(proc_logged, executor='process', concurrency=size)
+        if op in ('parmap-thread', 'parmap-process'):
+            state['iter'] = 1
+            it = iter(st)
+            try:
+                next(it)
+                if how == 'worker-raises':
+                    for _ in it:
+                        pass
+            except Boom:
+                pass
+            if how == 'gc':
+                del it
+                gc.collect()
+            else:
+                it.close()
+            state['iter'] = 2
+            if op == 'parmap-process':
+                src['items'] = second_items()
+            return len(list(st))
+
+        async def main():
+            async def asrc():
+                for i in range(n):
+                    yield i
+
+            class ASrc:
+                def __aiter__(self):
+                    return asrc()
+
+            st = SA.AsyncStream(ASrc()).parmap(work, executor='thread', concurrency=size)
+            state['iter'] = 1
+            ait = st.__aiter__()
+            try:
+                await ait.__anext__()
+                if how == 'worker-raises':
+                    async for _ in ait:
+                        pass
+            except Boom:
+                pass
+            if how == 'gc':
+                del ait
+                gc.collect()
+                await asyncio.sleep(0)
+            else:
+                await ait.aclose()
+            state['iter'] = 2
+            k = 0
+            async for _ in st:
+                k += 1
+            return k
+
+        return asyncio.run(main())
+
+    try:
+        k = watch.run_bounded(body, 60, f'{op} re-iteration')
+    except watch.Hang as h:
+        viol.append({'mech': f'{op}/hang', 'msg': f're-iteration after {how} did not finish', 'stacks': h.stacks})
+        return {'violations': viol, 'obs': {}, 'exit_after': True}
+    max_running = led.max_running
+    if op == 'parmap-process':
+        time.sleep(slow + 0.1)
+        evs = []
+        try:
+            for line in open(path):
+                kind, _, t = line.split()
+                evs.append((float(t), 1 if kind == 'E' else -1))
+        except FileNotFoundError:
+            pass
+        cur = max_running = 0
+        for _, d in sorted(evs, key=lambda e: (e[0], e[1])):
+            cur += d
+            max_running = max(max_running, cur)
+    import shutil
+
+    shutil.rmtree(tmp, ignore_errors=True)
+    if max_running > size:
+        viol.append({'mech': f'{op}/concurrency-exceeded', 'msg': f'{max_running} calls of the worker function overlapped with concurrency {size} when the stream was '
+                     f'iterated again right after an iteration ended by {how} with calls in flight'})
+    if k != n:
+        viol.append({'mech': f'{op}/reiteration-wrong-length', 'msg': f'second iteration gave {k} of {n} elements'})
+    obs = {'runs': 1, 'reiterate_runs': 1, 'max_running_minus_conc': max_running - size}
+    return {'violations': viol, 'obs': obs, 'sig': hash(('reiterate', op, size, how)) & 0xFFFFFFFFFFFF, 'nontrivial': max_running >= size,
+            'sample': {'op': op, 'scenario': 'reiterate', 'how': how, 'concurrency': size, 'max_running': max_running, 'second_iteration_outputs': k}}
 
 
 def proc_timed(x):
@@ -80,6 +235,8 @@ def proc_timed(x):
 
 
 def run_case(case):
+    if case.get('scenario') == 'reiterate':
+        return _reiterate(case)
     import mpservice.streamer._streamer as S
     import mpservice._queues as Q
 
